@@ -172,10 +172,16 @@ func ParseSPSNALUnit(data []byte, parseVUIBeyondAspectRatio bool) (*SPS, error) 
 	}
 
 	sps.Log2MaxFrameNumMinus4 = reader.ReadExpGolomb()
+	if sps.Log2MaxFrameNumMinus4 > 12 { // range 0..12 (7.4.2.1.1); value+4 is a bit width in the slice header
+		return nil, fmt.Errorf("invalid log2_max_frame_num_minus4: %d", sps.Log2MaxFrameNumMinus4)
+	}
 	sps.PicOrderCntType = reader.ReadExpGolomb()
 	switch sps.PicOrderCntType {
 	case 0:
 		sps.Log2MaxPicOrderCntLsbMinus4 = reader.ReadExpGolomb()
+		if sps.Log2MaxPicOrderCntLsbMinus4 > 12 { // range 0..12; value+4 is a bit width in the slice header
+			return nil, fmt.Errorf("invalid log2_max_pic_order_cnt_lsb_minus4: %d", sps.Log2MaxPicOrderCntLsbMinus4)
+		}
 	case 1:
 		sps.DeltaPicOrderAlwaysZeroFlag = reader.ReadFlag()
 		sps.OffsetForNonRefPic = reader.ReadExpGolomb()
